@@ -144,7 +144,8 @@ const MAX_LEAF_DEPTH: usize = 8;
 fn range_end_inc(range: &impl RangeBounds<u64>) -> Option<u64> {
     match range.end_bound() {
         std::ops::Bound::Included(val) => Some(*val),
-        std::ops::Bound::Excluded(val) => Some(*val - 1),
+        // an exclusive end of 0 is an empty range: nothing is filtered in by `contains`
+        std::ops::Bound::Excluded(val) => Some(val.saturating_sub(1)),
         std::ops::Bound::Unbounded => None,
     }
 }
